@@ -1,8 +1,8 @@
 import StoneVerif.Lemmas.FeCompileLegalPass3
 set_option linter.unusedSimpArgs false
 /-!
-Legal declarations go through passes 4 - 6 and the assembly: once pass 3 has filled the tables, they ARE the
-specification-level maps, and every later test is the corresponding clause of `Legal`.
+LegalCore declarations go through passes 4 - 6 and the assembly: once pass 3 has filled the tables, they ARE the
+specification-level maps, and every later test is the corresponding clause of `LegalCore`.
 -/
 namespace StoneVerif.FeCompile.L
 open StoneVerif.FeCompile
